@@ -235,7 +235,7 @@ def run(rep: Report, tier: str) -> None:
         from_param = flt.param_names[1] if len(flt.param_names) > 1 else "?"
         ok = elt_ok and conds in ([f"{v}.year >= {from_param}"], [f"{from_param} <= {v}.year"], [f"not {v}.year < {from_param}"])
         desc = f"[{unparse(comps[0].elt)} for ... if {' and '.join(conds)}]"
-    rep.check(ok, rd, CD, flt.qualname, "from filter keeps lines with year >= from-year, nothing else", f"the from filter is {desc}; expected every line whose year >= the from-date's year and no other condition", loc(flt.node))
+    rep.check(ok, rd, CD, flt.qualname, "from filter keeps lines with year >= from-year, nothing else", f"the from filter is {desc}; expected every line whose year >= the from-date's year and no other condition", loc(flt.node), definite=len(comps) == 1 and len(comps[0].generators) == 1 and (len(comps[0].generators[0].ifs) > 1 or any(isinstance(c, ast.BoolOp) for c in comps[0].generators[0].ifs)))  # an additional condition is a positive finding
     fcalls = [n for n in ast.walk(init_fi.node) if isinstance(n, ast.Call) and isinstance(n.func, ast.Attribute) and n.func.attr == flt.name]
     if len(fcalls) == 1:
         fargs = _call_args(norm, init_fi, fcalls[0], flt)
